@@ -1,0 +1,11 @@
+//go:build verif
+// +build verif
+
+package keys
+
+import dbm "github.com/tendermint/tm-db"
+
+// NewKeybaseWithDB exposes the database-backed keybase over a caller-supplied DB.
+// It exists only under the "verif" build tag: the /verif simulator passes its
+// simulated disk to it.
+func NewKeybaseWithDB(db dbm.DB) Keybase { return newDbKeybase(db) }
